@@ -590,7 +590,7 @@ func sizeClass(n int) string {
 }
 
 func TestPropEcxDelete(t *testing.T) {
-	vlib.Check(t, 200, 6000, func(t *rapid.T) {
+	vlib.Check(t, 200, 3000, func(t *rapid.T) {
 		hist := genHistory(t)
 		fx := newEcFixture(t, hist)
 		defer os.RemoveAll(fx.dir)
@@ -893,7 +893,7 @@ func restrictSdxOrder(live []rec, order []uint64) []uint64 {
 }
 
 func TestPropSortedFileMapDelete(t *testing.T) {
-	vlib.Check(t, 240, 5000, func(t *rapid.T) {
+	vlib.Check(t, 240, 3000, func(t *rapid.T) {
 		hist := genHistory(t)
 		live := liveSet(hist)
 		n := len(live)
